@@ -12,10 +12,19 @@ from psec import pinblock, tr31
 
 
 def pre_proof():
-    """regenerate coq/Gen/Effects.v from the current source and recompile it"""
+    """Regenerate coq/Gen/Effects.v from the CURRENT source and recompile it.  Gen/Effects.v and Properties/C18.v are
+    deliberately not part of the main build (_CoqProject): they depend on the tree under test, so only this check
+    compiles them - a tree that violates the purity policy must not break the build of the other properties."""
     out = os.path.join(fw.COQ, "Gen", "Effects.v")
-    effects.regenerate(core.REPO, out)
-    subprocess.run(["coqc", "-R", ".", "Psec", "Gen/Effects.v"], cwd=fw.COQ, capture_output=True, text=True, timeout=600)
+    os.makedirs(os.path.dirname(out), exist_ok=True)
+    try:
+        txt = effects.to_coq(effects.analyse(core.REPO))
+    except SyntaxError as e:       # the source does not even parse: no summary, the obligation cannot be checked
+        txt = "(* psec source does not parse: %s *)\nFrom Psec Require Import Proofs.EffectPolicy.\nDefinition effects : list fn_summary := nil.\n" % str(e).replace("*)", "")
+    with open(out, "w") as f:
+        f.write(txt)
+    subprocess.run(["coqc", "-R", ".", "Psec", "Gen/Effects.v"], cwd=fw.COQ, capture_output=True, text=True, timeout=600,
+                   preexec_fn=fw.limit_mem)
 
 
 def workload(rng, n):
